@@ -6,7 +6,8 @@ PROPERTY = "C13"
 READY = True
 STATEFUL = True
 THEOREMS = ["C13.parse_print", "C13.int_of_str", "C13.same_rendering_setter", "C13.same_rendering_ctor",
-            "C13.format_after_print", "C13.empty_noop", "C13.fieldless", "C13.reachable_invariants"]
+            "C13.format_after_print", "C13.empty_noop", "C13.fieldless", "C13.reachable_invariants",
+            "C13.fieldless_literal_fails"]
 
 
 def translate(repo):
@@ -74,6 +75,9 @@ class _Live:
                 if self.sib is None:
                     return "err NoTable"
                 (self.table, self.records, self.kw), self.sib = self.sib, (self.table, self.records, self.kw)
+                return "ok"
+            if op == "setlim":
+                self.table.fmt.set_limits(tuple(None if a == "n" else int(a) for a in args))
                 return "ok"
             if op == "rmcols":
                 self.table.remove_columns([dec_str(a) for a in args])
@@ -171,14 +175,12 @@ def gen_parse_lines(rng, n):
 
 def _ctor_kw(records, kw, fmt):
     """arguments of `PPTable(records, fmt=s, <the same fields>)`; a table that was built without `fields` is
-    given the names it got then (col_N, or the dummy field of an empty table)"""
+    rebuilt without `fields` as well - the literal call of the property (known finding fieldless_ctor_route)"""
     kw = dict(kw)
     kw.pop("limits", None)
     kw.pop("skip_columns", None)
     kw["fmt"] = fmt
-    names = kw.pop("_names", None)
-    if "fields" not in kw:
-        kw["fields"] = names
+    kw.pop("_names", None)      # a field-less table is rebuilt literally: without `fields`
     return kw
 
 
@@ -236,6 +238,8 @@ def oracle(case, replies):
             except Exception as e:
                 return "ctor-rejects: PPTable(records, fmt=%r) raises %s" % (s, type(e).__name__)
             got = _render(t2)
+            if isinstance(got, str):
+                return "ctor-print-fails: PPTable(records, fmt=%r) is accepted but cannot be printed (%s)" % (s, got[4:])
             if got != want:
                 return "ctor-differs: PPTable(records, fmt=%r) prints differently" % s
             if str(t2.fmt) != want_fmt:
@@ -265,6 +269,19 @@ def oracle(case, replies):
             if str(before.table.fmt) != str(after.table.fmt):
                 return "noop-format: table.fmt = %r changed the printed format" % dec_str(line.split()[1])
     return None
+
+
+def _known_fieldless_ctor_route(case):
+    """the table was built without `fields`; the failing step is the constructor route without `fields`;
+    the new table is accepted and raises AttributeError when printed"""
+    first = case["lines"][0].split()
+    if first[0] not in ("new", "newobj") or first[1] != "F-":
+        return False
+    msg = oracle(case, impl(case))
+    return bool(msg) and msg.startswith("ctor-print-fails") and msg.endswith("(AttributeError)")
+
+
+KNOWN = {"fieldless_ctor_route": _known_fieldless_ctor_route}
 
 
 # ------------------------------------------------------------------ generators
@@ -307,7 +324,11 @@ def gen_history(rng, desc):
             ops += ["str", "ctorlast"]
         elif k < 0.70:
             ops.append("ctorobj")
-        elif k < 0.76:
+        elif k < 0.73:
+            # the limits of the live format object changed in place (on a table whose widths are not negotiated:
+            # after a print the widths stay as negotiated for the rows visible before - see the report)
+            ops += ["set " + enc_str(""), "setlim %s %s" % (rng.choice(["n", 0, 1, 2, 4]), rng.choice(["n", 0, 1, 3])), "str"]
+        elif k < 0.78:
             # columns removed from the live format object, between two reads of the format
             gone = [n for n in names + ["no such column"] if rng.random() < 0.4][:max(1, len(names) - 1)]
             # (on a table whose widths are not negotiated yet: `set ""` makes it so. Removing a break-by column from
@@ -356,6 +377,27 @@ def gen_default_limits_case(rng):
     return _case(desc, ops, "default-limits")
 
 
+def gen_setlim_printed_case(rng):
+    """set_limits on a PRINTED table whose columns all have fixed widths (nothing to re-negotiate): the flag
+    'lines were skipped' of the last print must not survive the change"""
+    nf = rng.randint(1, 3)
+    fields = [{"name": nm, "enum": None, "title": None} for nm in rng.sample(["id", "grp", "name", "x y"], nf)]
+    n = rng.choice([3, 5, 6, 8, 12])
+    records = [[(i if k == 0 else (i // 2 if k == 1 else "v%d" % (i % 5))) for k in range(nf)] for i in range(n)]
+    cols = []
+    for k, fl in enumerate(fields):
+        w = rng.choice([0, 2, 3, 6])
+        cols.append({"f": fl["name"], "mod": None, "brk": k == 1 and rng.random() < 0.5, "w": [w, w]})
+    lim0 = rng.choice([None, "*", [5, 5], [rng.randint(0, 4), rng.randint(0, 4)], [12, 12]])
+    desc = {"valid": True, "fields": fields, "records": records, "cols": cols, "header": None, "footer": None, "skip": None,
+            "fmt_limits": lim0, "limits": None}
+    desc["fmt"] = c12.fmt_str(rng, cols, lim0, plain=True)
+    ops = ["print"] + rng.choice([[], ["str"]])
+    ops += ["setlim %s %s" % (rng.choice(["n", 0, 1, 2, 4, 9]), rng.choice(["n", 0, 1, 3, 9])), "str",
+            rng.choice(["ctorlast", "setlast"]), "print", "str"]
+    return _case(desc, ops, "set_limits-after-print")
+
+
 def _case(desc, ops, kind, direct=False):
     if direct:
         # the format is built from ReprColumn objects: the first string that meets the parser is str(table.fmt)
@@ -372,6 +414,12 @@ def corpus():
             "cols": [{"f": "a", "mod": None, "brk": False, "w": [2, 5]}, {"f": "b", "mod": None, "brk": True, "w": [1, 9]}],
             "fmt_limits": [3, 2], "limits": None, "header": None, "footer": None, "skip": None, "fmt": "a:2-5,b!:1-9;3:2"}
     yield _case(desc, ["str", "print", "str", "setlast", "print", "str", "ctorlast", "print", "str"], "corpus-printed-range")
+    # the defect fixed by 3b63cdc: set_limits kept the 'lines skipped' flag of the last print
+    desc = {"valid": True, "fields": [{"name": "a", "enum": None, "title": None}, {"name": "b", "enum": None, "title": None}],
+            "records": [[i, "x"] for i in range(6)],
+            "cols": [{"f": "a", "mod": None, "brk": False, "w": None}, {"f": "b", "mod": None, "brk": False, "w": None}],
+            "fmt_limits": [5, 5], "limits": None, "header": None, "footer": None, "skip": None, "fmt": "a,b;5:5"}
+    yield _case(desc, ["print", "setlim 1 1", "str", "ctorlast", "print", "str"], "corpus-set_limits-stale-flag")
 
 
 def gen_cases(rng, tier):
@@ -381,7 +429,7 @@ def gen_cases(rng, tier):
         direct = (desc["cols"] is not None and desc["skip"] is None and rng.random() < 0.35
                   and all(c["w"] != "hidden" for c in desc["cols"]))
         yield _case(desc, gen_history(rng, desc), "history", direct)
-    for _ in range(120 if quick else 3000):
+    for _ in range(40 if quick else 1500):
         desc = c12.gen_fieldless(rng)
         yield _case(desc, gen_history(rng, {"fields": desc["oracle_fields"]}), "fieldless")
     for _ in range(200 if quick else 5000):
@@ -389,6 +437,8 @@ def gen_cases(rng, tier):
         yield _case(desc, gen_history(rng, desc), "malformed")
     for _ in range(120 if quick else 2500):
         yield gen_default_limits_case(rng)
+    for _ in range(200 if quick else 4000):
+        yield gen_setlim_printed_case(rng)
     for s in gen_parse_lines(rng, 1500 if quick else 60000):
         yield {"lines": ["parse " + enc_str(s)], "meta": {"kind": "parse"}}
     if not quick:
@@ -457,6 +507,8 @@ def tags(case, replies):
             if ";" in s:
                 yield "str:with-limits"
             yield "str:printed" if printed else "str:fresh"
+        if op == "setlim":
+            yield "history:set_limits" + ("-after-print" if printed else "")
         if op == "rmcols":
             yield "history:columns-removed" + ("-after-print" if printed else "")
         if op in ("setlast", "ctorlast", "set", "ctor", "new", "newobj", "ctorobj") and rep == "ok":
@@ -477,22 +529,32 @@ RULE = ("histories over C12's tables (field names the serialised form can expres
 TRUSTED = list(c12.TRUSTED)
 ASSUMPTIONS = list(c12.ASSUMPTIONS) + [
     "field names contain none of , : ; ! / < ( ) and no surrounding blanks (out of the property's domain)",
-    "a print that raises ends the history (the half-updated format object is not modelled)"]
-LEVEL_TEXT = ("Kernel-checked on the model, for all tables with explicit expressible field names (modifiers of user-written "
-              "field types: free text without , : ; ! < and no trailing blank, '/' allowed) and all histories of "
-              "construction from a string or from column objects or from another reachable table's format object "
-              "(siblings) / printing / table.fmt = <any string> / re-construction from any string (Reach): the printed format "
-              "string is accepted by the parser and reads back as the same columns (name, modifier, break-by, bounds) "
-              "and limits, with or without negotiated widths (parse_print, incl. the '(width)' suffix of the fixed "
-              "defect); applying it through the setter or through the constructor yields a table that prints exactly "
-              "the same lines, with the same fields and columns (same_rendering_setter, same_rendering_ctor - the "
-              "latter for natural-number limits); '', ';' and ';;' leave fields, columns and limits alone and the "
-              "rendering unchanged (empty_noop); after the next printing the fed-back table reports exactly the same format "
-              "string, negotiated widths included (format_after_print); a field-less table is the table with fields "
-              "col_1.. / the dummy field, so all of this applies to it (fieldless). Model = code rests on the differential run of histories (format "
-              "string and all rendered lines compared at every step).")
-LEVEL_NOTE = ("Trusted: Lean kernel, the translator (constants shared with C12), adapter/wire format in harness/c12.py and "
-              "harness/c13.py, sampled correspondence. Not covered by the theorems (tie and oracle only): the constructor "
-              "route under negative limits (for which it is in fact not faithful - reported as an observation), the "
-              "fmt_obj= route inside histories (ctorobj: C12.fmt_obj_same covers the single step), enhanced formats.")
+    "a print that raises ends the history (the half-updated format object is not modelled)",
+    "remove_columns / set_limits are issued on tables whose widths are not negotiated (after `set ''`), set_limits "
+    "also on printed tables with fixed-width columns only; the theorems (Reach.removeFresh, Reach.setLimitsFresh) "
+    "cover exactly the un-negotiated case"]
+LEVEL_TEXT = ("Kernel-checked on the model, for tables built with explicit expressible field names (modifiers of "
+              "user-written field types: free text without , : ; ! < and no trailing blank, '/' allowed) and all "
+              "histories in Reach: construction from a string / from column objects / from another reachable table's "
+              "format object (siblings), printing, table.fmt = <any string>, re-construction from any string, and - on "
+              "tables whose widths are not negotiated - table.fmt.set_limits(...) and table.remove_columns(...). "
+              "parse_print: the printed string is accepted and reads back as the same columns (name, modifier, break-by, "
+              "bounds; the '(width)' suffix ignored) and as the same limits when they are in the string - they are left "
+              "out when the last printing skipped nothing. same_rendering_setter: same lines, same fields and columns, "
+              "limits that act the same on every body. same_rendering_ctor (natural limits): same lines, same fields "
+              "and columns; the limits are only RENDERING-equivalent on this route: when they were left out of the "
+              "string the new table has none, which prints the same because nothing was skipped (SkipFaithful). "
+              "format_after_print: after the next printing both routes report the same string as the original. "
+              "empty_noop: '', ';', ';;' change nothing. fieldless: a field-less table equals the table built with the "
+              "automatic names col_1.. passed as fields= (so the above holds for THAT call); the literal constructor "
+              "call without fields= fails at print (fieldless_literal_fails, known finding fieldless_ctor_route). "
+              "Model = code rests on the differential run of histories.")
+LEVEL_NOTE = ("Trusted: Lean kernel, translator (constants shared with C12), adapter/wire in harness/c12.py and c13.py, "
+              "sampled correspondence. Tie and oracle only (outside Reach): set_limits on a PRINTED table (generated "
+              "only with fixed-width columns, where nothing can be re-negotiated); the fmt_obj route inside histories "
+              "(ctorobj). Tie only, not judged by the oracle and ruled outside the quantifier 'fresh, printed, "
+              "re-formatted': remove_columns or set_limits on a printed table with ranged columns - the widths stay as "
+              "negotiated for the rows visible before, feeding the string back re-negotiates them (reported); the "
+              "driver applies rmcols/setlim in any state, the generator issues them on un-negotiated tables only. Not "
+              "covered: negative limits on the constructor route (not faithful, reported), enhanced formats.")
 TECHNIQUE = "Lean 4 theorems (string round trip on List Char, reachability invariants) + differential run of histories"
